@@ -142,4 +142,111 @@ theorem addHeaders_ok (f : Nat → Nat) (anchor0 : Nat) (rev : Bool) (rank : Lis
   simp only [BC.emitOps, bind, Except.bind, hres]
   exact ⟨_, rfl⟩
 
+/-- acyclicity is kept by `add_headers` -/
+theorem addHeaders_acyclic (f : Nat → Nat) (rev : Bool) (rank : List Nat) (bc bc' : BC) (c : List Nat)
+    (batch : List Header) (ops : List Op) (hcur : curChain bc c) (hac : AcyclicPl f bc.finder.parent)
+    (hb : ∀ hd ∈ batch, f hd.parent < f hd.hash)
+    (hr : bc.addHeaders rev rank batch = .ok (ops, bc')) : AcyclicPl f bc'.finder.parent := by
+  have hload : bc.finder.loadNodes rev rank (feed bc.h2i bc.locked.length bc.weight batch).2 = .ok bc'.finder := by
+    unfold BC.addHeaders at hr
+    obtain ⟨⟨old, bc1⟩, h1, hr⟩ := bind_ok hr
+    have e1 := h1.symm.trans (longest_of_cur rev bc c hcur)
+    simp only [Except.ok.injEq, Prod.mk.injEq] at e1
+    obtain ⟨e1a, e1b⟩ := e1
+    subst e1b
+    try simp only at hr
+    obtain ⟨finder', h2, hr⟩ := bind_ok hr
+    try simp only at hr
+    obtain ⟨⟨new, bc3⟩, h3, hr⟩ := bind_ok hr
+    try simp only at hr
+    obtain ⟨⟨oldPath, newPath⟩, h4, hr⟩ := bind_ok hr
+    try simp only at hr
+    unfold BC.longest at h3
+    try simp only at h3
+    obtain ⟨chains, h3a, h3⟩ := bind_ok h3
+    simp only [Except.ok.injEq, Prod.mk.injEq] at h3
+    obtain ⟨_, rfl⟩ := h3
+    unfold BC.emitOps at hr
+    obtain ⟨⟨rops, m1⟩, h5, hr⟩ := bind_ok hr
+    try simp only at hr
+    simp only [Except.ok.injEq, Prod.mk.injEq] at hr
+    obtain ⟨_, rfl⟩ := hr
+    exact h2
+  rw [loadNodes_parent rev rank bc.finder bc'.finder _ hload]
+  exact hac.register _ (by
+    intro e he
+    obtain ⟨_, _, hd, hm, e1, e2⟩ := (feed_spec bc.h2i bc.locked.length batch bc.weight).2 e.1 e.2 he
+    rw [← e1, ← e2]; exact hb hd hm)
+
+/-- `lock_to_index` within the reported chain does not raise, and keeps acyclicity -/
+theorem lockToIndex_ok (f : Nat → Nat) (anchor0 : Nat) (rev : Bool) (rank : List Nat) (bc : BC) (c : List Nat)
+    (index : Nat) (fl : Full anchor0 bc c) (hac : AcyclicPl f bc.finder.parent)
+    (hin : index ≤ c.length + bc.locked.length) :
+    ∃ cb bc', bc.lockToIndex rev rank index = .ok (cb, bc') ∧ AcyclicPl f bc'.finder.parent := by
+  unfold BC.lockToIndex
+  rw [longest_of_cur rev bc c fl.good.cur]
+  simp only [bind, Except.bind]
+  by_cases h1 : index ≤ bc.locked.length
+  · simp only [h1, if_true]
+    exact ⟨_, _, rfl, hac⟩
+  · simp only [h1, if_false]
+    have h2 : ¬ (index - bc.locked.length > c.length) := by omega
+    simp only [h2, if_false]
+    have hacn : AcyclicPl f (register CF.empty.parent []
+        (lockNodes bc.finder.parent (bc.finder.trees.map (·.2)) ((c.reverse.take (index - bc.locked.length)).reverse))).1 := by
+      intro k v hk
+      rcases register_new _ _ _ k v hk with h | h
+      · simp [CF.empty, dget] at h
+      · exact hac k v (lockNodes_spec _ _ _ k v h).1
+    obtain ⟨finder', hl⟩ := loadNodes_ok f rev rank CF.empty _ InvX.empty hacn
+    simp only [hl]
+    refine ⟨_, _, rfl, ?_⟩
+    simp only
+    rw [loadNodes_parent rev rank CF.empty finder' _ hl]; exact hacn
+
+/-- a step is well formed: delivered headers do not carry the anchor's hash and rank above their parents -/
+def Step.wf (f : Nat → Nat) (anchor0 : Nat) : Step → Prop
+  | .add batch _ => ∀ hd ∈ batch, hd.hash ≠ anchor0 ∧ f hd.parent < f hd.hash
+  | .lock _ _ => True
+
+/-- every `lock_to_index(i)` of the history is called with `i ≤ length()` -/
+def LocksWithin (rev : Bool) : BC → List Step → Prop
+  | _, [] => True
+  | bc, s :: ss =>
+    (match s with
+      | .lock index _ => ∀ n, bc.length rev = .ok n → index ≤ n
+      | .add _ _ => True) ∧
+    ∀ o bc', bc.step rev s = .ok (o, bc') → LocksWithin rev bc' ss
+
+/-- **well-formed histories never raise**: acyclic headers outside the anchor, locks within the reported chain -/
+theorem run_ok (f : Nat → Nat) (anchor0 : Nat) (rev : Bool) : ∀ (steps : List Step) (bc : BC) (c : List Nat),
+    Full anchor0 bc c → AcyclicPl f bc.finder.parent → (∀ s ∈ steps, s.wf f anchor0) → LocksWithin rev bc steps →
+    ∃ res, runHist rev bc steps = .ok res
+  | [], bc, _, _, _, _, _ => ⟨([], bc), rfl⟩
+  | s :: ss, bc, c, fl, hac, hwf, hlk => by
+      have hwf' : ∀ s ∈ ss, s.wf f anchor0 := fun s hs => hwf s (List.mem_cons_of_mem _ hs)
+      obtain ⟨hlk1, hlk2⟩ := hlk
+      cases s with
+      | add batch rank =>
+        have hw := hwf (.add batch rank) (by simp)
+        have h0 : ∀ hd ∈ batch, hd.hash ≠ anchor0 := fun hd hm => (hw hd hm).1
+        have hb : ∀ hd ∈ batch, f hd.parent < f hd.hash := fun hd hm => (hw hd hm).2
+        obtain ⟨⟨ops, bc1⟩, h1⟩ := addHeaders_ok f anchor0 rev rank bc c batch h0 fl hac hb
+        obtain ⟨c1, fl1, _, _⟩ := addHeaders_full anchor0 rev rank bc bc1 c batch ops h0 fl h1
+        have hac1 := addHeaders_acyclic f rev rank bc bc1 c batch ops fl.good.cur hac hb h1
+        have hstep : bc.step rev (.add batch rank) = .ok (⟨ops, none⟩, bc1) := by
+          simp [BC.step, h1, bind, Except.bind]
+        obtain ⟨⟨os, bc2⟩, h2⟩ := run_ok f anchor0 rev ss bc1 c1 fl1 hac1 hwf' (hlk2 _ _ hstep)
+        exact ⟨(_ :: os, bc2), by unfold runHist; rw [hstep]; simp only [bind, Except.bind, h2]; rfl⟩
+      | lock index rank =>
+        have hin : index ≤ c.length + bc.locked.length := by
+          have := hlk1 _ (length_good rev fl.good)
+          simpa [lockedHashes, Nat.add_comm] using this
+        obtain ⟨cb, bc1, h1, hac1⟩ := lockToIndex_ok f anchor0 rev rank bc c index fl hac hin
+        obtain ⟨c1, fl1, _⟩ := lockToIndex_full' anchor0 rev rank bc bc1 c index cb fl h1
+        have hstep : bc.step rev (.lock index rank) = .ok (⟨[], cb⟩, bc1) := by
+          simp [BC.step, h1, bind, Except.bind]
+        obtain ⟨⟨os, bc2⟩, h2⟩ := run_ok f anchor0 rev ss bc1 c1 fl1 hac1 hwf' (hlk2 _ _ hstep)
+        exact ⟨(_ :: os, bc2), by unfold runHist; rw [hstep]; simp only [bind, Except.bind, h2]; rfl⟩
+
 end Pycoin.Chain
